@@ -251,7 +251,7 @@ func runC10Case(cc c10Case) (string, string) {
 
 func runC10(ctx *runCtx) {
 	rep := ctx.rep
-	rep.Rule = "calls {Write, streaming Writer, Read of a single-frame message, Read of a fragmented message with an interleaved ping and an empty fragment, Ping} each with its own context, cancelled {after the call succeeded (then a liveness round trip), while the call is blocked (for reads: with nothing received, inside a header, inside a payload, inside a continuation frame, inside an interleaved control frame), before the call (also: ten rounds of a call with a dead context followed by the same call with a live one)} at varied delays, sizes 0..70000, both roles, compression on/off. " +
+	rep.Rule = "calls {Write, streaming Writer, Read of a single-frame message, Read of a fragmented message with an interleaved ping and an empty fragment, Ping} each with its own context, cancelled {after the call succeeded (then a liveness round trip), while the call is blocked (for reads: with nothing received, inside a header, inside a payload, inside a continuation frame, inside an interleaved control frame), before the call (also: ten rounds of a call with a dead context followed by the same call with a live one)}; a call queued behind another one that then blocks in the transport itself and is cancelled at varied delays, sizes 0..70000, both roles, compression on/off. " +
 		"oracle: after success cancellation has no effect (round trip succeeds); a blocked/cancelled call returns an error within 2 s and (read/write) the connection is closed. distinct = case tuple"
 	if ctx.replay != "" {
 		var cc c10Case
@@ -297,6 +297,14 @@ func runC10(ctx *runCtx) {
 			for _, fl := range []bool{false, true} {
 				cases = append(cases, c10Case{Client: client, Flate: fl, Op: op, When: "before-rounds", Size: []int{1, 200, 5000}[rng.Intn(3)]})
 			}
+		}
+	}
+	for _, client := range []bool{true, false} {
+		cl := client
+		sh, w := guarded(30*time.Second, func() (string, string) { return queuedCallScenario(cl) })
+		rep.eval(fmt.Sprintf("queued-call/%v", cl))
+		if sh != "" {
+			rep.violate(Violation{Kind: "property", Shape: sh + ":queued-call", What: w, Replay: map[string]interface{}{"scenario": "queued-call", "client": cl}})
 		}
 	}
 	type res struct {
@@ -429,6 +437,61 @@ func preCancelledRounds(cc c10Case, rounds int) (string, string) {
 			return "later-call-fails-on-open-connection", fmt.Sprintf("%s: round %d: the live %s failed (%v) although the connection is still open (a following write: %v)", desc, r, cc.Op, lerr, werr)
 		}
 		return "", "" // closed: fine
+	}
+	return "", ""
+}
+
+// queuedCallScenario: call A is blocked in the transport; call B (a Ping with its own context) queues behind
+// it; A is let through and succeeds; B then blocks in the transport itself and its context is cancelled:
+// B must return with an error and the connection must be closed — B's context has to be the one that is
+// watched while B is the call doing I/O, whatever happened while it was queued.
+func queuedCallScenario(client bool) (string, string) {
+	a, b := newPipe()
+	a.writeGate = make(chan struct{}, 16)
+	c := websocket.VerifNewConn(a, client, websocket.VerifCopts{}, 0)
+	defer b.Close()
+	defer c.CloseNow()
+	desc := fmt.Sprintf("queued call, client=%v", client)
+	ctxA, cancelA := context.WithTimeout(context.Background(), 10*time.Second)
+	defer cancelA()
+	aRet := make(chan error, 1)
+	go func() { aRet <- c.Write(ctxA, websocket.MessageBinary, []byte("call A")) }()
+	time.Sleep(40 * time.Millisecond)
+	ctxB, cancelB := context.WithCancel(context.Background())
+	defer cancelB()
+	bRet := make(chan error, 1)
+	go func() { bRet <- c.Ping(ctxB) }()
+	time.Sleep(40 * time.Millisecond)
+	a.writeGate <- struct{}{} // the peer reads exactly A's frame
+	select {
+	case err := <-aRet:
+		if err != nil {
+			return "call-fails-while-other-queued", fmt.Sprintf("%s: A (live context) failed: %v", desc, err)
+		}
+	case <-time.After(3 * time.Second):
+		return "call-hangs", desc + ": A did not finish although the peer read its frame"
+	}
+	time.Sleep(40 * time.Millisecond) // B is now blocked writing its Ping frame
+	select {
+	case err := <-bRet:
+		return "blocked-call-returned-early", fmt.Sprintf("%s: B returned %v before its context was cancelled", desc, err)
+	default:
+	}
+	cancelB()
+	select {
+	case err := <-bRet:
+		if err == nil {
+			return "cancelled-call-succeeded", desc + ": B returned nil although it was blocked when its context was cancelled"
+		}
+	case <-time.After(3 * time.Second):
+		return "blocked-call-ignores-context", desc + ": B (blocked writing its frame) has not returned 3 s after its context was cancelled: nobody watches its context"
+	}
+	time.Sleep(20 * time.Millisecond)
+	wctx, wc := context.WithTimeout(context.Background(), time.Second)
+	defer wc()
+	a.writeGate = nil
+	if werr := c.Write(wctx, websocket.MessageText, []byte("x")); werr == nil {
+		return "connection-open-after-expiry", desc + ": the connection still accepts writes after a blocked call's context was cancelled"
 	}
 	return "", ""
 }
